@@ -45,4 +45,4 @@ def run_one(t):
             return from_world(w, ctx.pop, ctx.nontrivial)
         finally:
             w.close()
-    return insitu.run(t, {"faultfree": 5, "bounded_faults": 2, "cancel": 2, "chaos": 2}, attach, post=post)
+    return insitu.run(t, {"faultfree": 5, "bounded_faults": 2, "cancel": 2, "chaos": 2, "silence": 2}, attach, post=post)
